@@ -1,3 +1,4 @@
+use std::str::FromStr;
 use std::{io, mem, net};
 
 use byteorder::{NetworkEndian, ReadBytesExt};
@@ -419,6 +420,14 @@ impl wire::Decode for Address {
             Ok(AddressType::Dns) => {
                 let dns: String = wire::Decode::decode(reader)?;
 
+                // Nb. Addresses are stored and loaded again in their text form: a name that
+                // doesn't parse as a host name (eg. an invalid `.onion` name) can't be loaded.
+                if HostName::from_str(&dns).is_err() {
+                    return Err(wire::Error::from(io::Error::new(
+                        io::ErrorKind::InvalidData,
+                        "invalid DNS name in address",
+                    )));
+                }
                 HostName::Dns(dns)
             }
             Ok(AddressType::Onion) => {
